@@ -269,6 +269,13 @@ def model_obs(resp: dict) -> dict:
     }
 
 
+def differ(a: Any, b: Any) -> bool:
+    """Strict structural inequality of canonical observations: Python's == conflates True with 1 (and False with 0)."""
+    import json
+
+    return json.dumps(a, sort_keys=True, default=str) != json.dumps(b, sort_keys=True, default=str)
+
+
 def ordinalise(events: list[dict]) -> list[dict]:
     """Replace span ids by ordinals of first appearance (ids are random on one side, paths on the other)."""
     ids: dict[Any, int] = {}
